@@ -33,9 +33,9 @@ BadL1(e) ==
     [] e.op = "sweep" ->
          IF e.count = 256 ^ e.n /\ e.nvalid >= CanonCount(e.n) /\ e.nvalid <= StructCount(e.n) THEN {} ELSE {0}
     [] e.op = "num" ->
-         IF e.txt = ToDecimal(e.v, Signed(e.kind)) /\ e.back = e.v /\ e.sback = e.v /\ Len(e.v) = NLimbs(e.kind) THEN {} ELSE {0}
+         IF e.txt = ToDecimal(e.v, Signed(e.kind)) /\ e.back = e.v /\ e.sback = e.v /\ e.vback = e.v /\ Len(e.v) = NLimbs(e.kind) THEN {} ELSE {0}
     [] e.op = "parse" ->
-         LET v == FromDecimal(e.txt, NLimbs(e.kind)) IN IF e.back = v /\ e.sback = v THEN {} ELSE {0}
+         LET v == FromDecimal(e.txt, NLimbs(e.kind)) IN IF e.back = v /\ e.sback = v /\ e.vback = v THEN {} ELSE {0}     \* vback: the String is an unterminated view followed by digits
     [] e.op = "hex" -> { k \in 1..Len(e.s) : e.r[k] # HexOf(e.s[k]) }
     [] e.op = "b64" -> { k \in 1..Len(e.s) : e.r[k] # e.orig[k] }
     [] e.op = "b64sweep" -> IF e.count = (e.hi - e.lo + 1) * 65536 /\ e.bad = 0 THEN {} ELSE {0}
